@@ -337,6 +337,10 @@ Print Assumptions c15_monitor_rule9.
 (* rule 10: a consumer waiting at a quiescent point has been handed everything that is due (uses the discipline) *)
 Theorem c15_monitor_rule10 : quiet_rule_ok 10. Proof. exact rule10_ok. Qed.
 Print Assumptions c15_monitor_rule10.
+(* rule 14: after Close of a typed subscription returned, no receive on it is left unanswered at a quiescent point
+   (the channel is closed); with rule 4: after ANY Close call returned nothing more is delivered *)
+Theorem c15_monitor_rule14 : quiet_rule_ok 14. Proof. exact rule14_ok. Qed.
+Print Assumptions c15_monitor_rule14.
 (* rule 12 from rule 13: at the end marker (final_ok) nothing is left in flight *)
 Theorem c15_monitor_rule12_from_rule13 : forall o tr, all_closing tr (length (o_sub o)) -> all_subscribed tr (length (o_sub o)) ->
   blocked_badly o tr = None -> existsb (fun t => o_started tr t && negb (o_returned tr t)) (o_ops o) = false.
@@ -379,7 +383,7 @@ Print Assumptions c15_due_replay_is_promised_first.
    written in a final_ok state: quiescent, every returned Subscribe closing, no Subscribe still
    in flight - the last conjunct excludes exactly the known finding, the crossing multi-type
    Subscribe deadlock, see c15_no_deadlock_full_refuted), monitor_case run on the WIRE line the
-   harness would write for that run answers [] (accepted): all of rules 1-13, with the monitor's
+   harness would write for that run answers [] (accepted): all of rules 1-14, with the monitor's
    own functions, decoding included. *)
 Theorem c15_monitor_accepts_model : forall c sched fin,
   cfg_wf c = true -> nonneg (c_ntypes c) = true -> Disc c sched ->
